@@ -132,7 +132,8 @@ CLAIMS = {
             "repeated on the same object and on an equal fresh object must give the identical result. (iii) generated histories of 3-9 calls "
             "over a pool of shared input objects, incl. repeated and refused calls: the whole history runs in a child fork()ed from a fresh "
             "interpreter that has imported prtpy and never called it, each call also runs alone in its own such child, and every result in "
-            "the history must equal its reference.",
+            "the history must equal its reference; histories include parameter sweeps and steps in which the caller changes a value of an "
+            "input object between two calls (the reference replays the same changes on a freshly built object).",
             "Reference state = post-import state of a brand-new interpreter reached by fork(); results compared after normalisation, bin order and in-bin order included.",
             "DESIGN.md 6/C15"),
     "C16": ("exploration", "model-based testing of operation histories (Hypothesis rule-based state machine with native sequence shrinking + histories generated as data + bounded-exhaustive sequences) against a list-of-(sum, items) model",
@@ -159,7 +160,9 @@ CLAIMS = {
             "first fit and best fit) and the exact optimal values by the same factor (multifit: powers of two); inserting 1-3 zero-valued items "
             "must leave every exact optimum unchanged. Agreement: on 11-13 (thorough 11-16) items and 2-5 bins every exact algorithm that "
             "finishes within a kill-timeout in a forked child must report the same optimal difference (cg, dp, ilp also min-max and max-min) "
-            "and greedy, kk and multifit may not beat them; value profiles include near-equal large values.",
+            "and greedy, kk and multifit may not beat them; value profiles include near-equal large values. Long searches: complete greedy on "
+            "13-16 items with wide values must scale, must agree across its switch settings and bins-managers and with an independent "
+            "subset-sum optimum for 2 and 3 bins.",
             "Exact algorithms compared on the optimal value only; agreement can show a violation but cannot certify optimality; timeouts are inconclusive.",
             "DESIGN.md 6/C18"),
     "C19": ("exploration", "property-based testing with an exception oracle (negative testing with a positive control)",
